@@ -27,6 +27,13 @@ ops.register_param_variant("para_A", "hertz_para", E=2000.0,
 ops.register_param_variant("para_B", "hertz_para", E=2000.0,
                            contact_point=1e-7, baseline={"vary": False})
 ops.register_param_variant("cone_A", "hertz_cone", E=2500.0)
+# differ from para_B only by values far below 1e-8 in SI units
+ops.register_param_variant("para_C", "hertz_para", E=2000.0,
+                           contact_point=1e-7,
+                           baseline={"vary": False, "value": 1.5e-10})
+ops.register_param_variant("para_D", "hertz_para", E=2000.0,
+                           contact_point=1.05e-7,
+                           baseline={"vary": False})
 
 RES_COLS = ["fit", "fit residuals", "fit range"]
 PLATEAU_KEYS = ("optimal_fit_E_array", "optimal_fit_delta_array")
@@ -392,6 +399,50 @@ class Failures(CurveDriver):
     ]
 
 
+class FailuresInnate(CurveDriver):
+    """failed requests on a curve that has an innate tip position: a fit
+    is possible on raw data, so results can be compared with what the
+    stored pipeline would give"""
+    name = "failures_innate"
+    ops = [
+        ["P", P1, {}, False],
+        ["P", P2, {}, False],
+        ["P", ["compute_tip_position", "nope"], {}, False],
+        ["P", P1, {"correct_tip_offset": {"method": "bogus"}}, False],
+        ["P", ["correct_force_slope"], {}, False],
+        F(),
+        F(weight_cp=0),
+        F(preprocessing=P1),
+        F(preprocessing=["nope"]),
+        F(range_type="bogus"),
+    ]
+
+    def fresh_idnt(self):
+        tr = synth.truth_params("hertz_para", E=3000.0, contact_point=2e-7,
+                                baseline=1e-10)
+        return synth.make_curve("hertz_para", tr, n_app=120, n_ret=120,
+                                noise=2e-11, seed=1, tilt=2e-5,
+                                innate_tip=True)
+
+
+class InitialParams(CurveDriver):
+    """initial-parameter sets that differ only slightly (SI units: 1e-10 N,
+    5e-9 m), refits and settings edits in between"""
+    name = "initial_params"
+    ops = [
+        ["P", P1, {}, False],
+        F(),
+        F(params_initial={"__params__": "para_A"}),
+        F(params_initial={"__params__": "para_B"}),
+        F(params_initial={"__params__": "para_C"}),
+        F(params_initial={"__params__": "para_D"}),
+        F(params_initial=None),
+        F(model_key="hertz_cone"),
+        F(model_key="hertz_para"),
+        ["E", "weight_cp", 0],
+    ]
+
+
 class Recorded(CurveDriver):
     """the recorded JPK curve, shallower"""
     name = "recorded"
@@ -415,7 +466,8 @@ class Recorded(CurveDriver):
             "/repo/tests/data/fmt-jpk-fd_spot3-0192.jpk-force")[0]
 
 
-DRIVERS = {d.name: d() for d in (Broad, Plateau, GcfRel, Failures, Recorded)}
+DRIVERS = {d.name: d() for d in (Broad, Plateau, GcfRel, Failures,
+                                 FailuresInnate, InitialParams, Recorded)}
 
 
 # ------------------------------------------------------------ layer A
@@ -434,9 +486,11 @@ def run(tier):
     rep = Report(PROP, tier, LEVEL)
     plan = {
         "quick": [("broad", 3), ("plateau", 3), ("gcf_relative", 3),
-                  ("failures", 4)],
+                  ("failures", 4), ("failures_innate", 3),
+                  ("initial_params", 3)],
         "thorough": [("broad", 4), ("plateau", 5), ("gcf_relative", 5),
-                     ("failures", 6), ("recorded", 3)],
+                     ("failures", 6), ("failures_innate", 5),
+                     ("initial_params", 4), ("recorded", 3)],
     }[tier]
     sc = hist.selfcheck_start(__name__, "broad", [1, 14, 12, 25])
     c03_store.run_store(rep, tier)
